@@ -8,7 +8,8 @@ level" resets and the inlining of path-item references.
 Input: the abstraction of a LOADED document (`Heap`): ref cells (the *XRef structs: collection, $ref text,
 RefPath(), resolved value id or -1 for nil), values (the pointed-to objects, with their child cells in the order
 the code visits them; `pex` = the Examples of a Parameter / Header, which the loader resolves and InternalizeRefs
-never visits), path items, the root components per collection in sorted order, the paths in sorted order.
+never visits; `dmap` = the discriminator mapping texts of a schema paired with the oneOf alternative they select,
+which InternalizeRefs never rewrites), path items, the root components per collection in sorted order, the paths in sorted order.
 Pointer sharing in the Go object graph is sharing of ids here. Texts are character lists (`RefName.Str`).
 
 Outcomes: `done` (final $ref text of every cell, final components), `panic` (the resolver's panic on a reference
@@ -62,6 +63,7 @@ structure Val where
   links : List Nat
   items : List Nat
   pex : List Nat
+  dmap : List (Str × Nat)   -- discriminator mapping entries (text, oneOf child cell whose $ref equalled the text when loaded)
   deriving Repr, Inhabited
 
 structure Heap where
@@ -505,8 +507,25 @@ def namesOK (s : St) : Bool := s.comps.all fun e => !e.2.1.isEmpty
 /-- every path item reference is inlined -/
 def pisOK (s : St) : Bool := (List.range h.pis.size).all fun p => s.pirefs[p]!.isEmpty
 
+/-- every discriminator mapping entry still names the alternative it named: `schema.visitXOFOperations` selects the
+oneOf item whose `$ref` text EQUALS the mapping value -/
+def mapOK (s : St) : Bool := h.vals.toList.all fun v => v.dmap.all fun e => s.refs[e.2]! == e.1
+
+/-- in the final document path item `p` is written out in full and leads, through callbacks that are written out in
+full, back to a path item on `stack`: the document is an infinite tree -/
+def cycReach (s : St) : Nat → List Nat → Nat → Bool
+  | 0, _, _ => true
+  | n + 1, stack, p =>
+    if stack.contains p then true
+    else if !(s.pirefs[p]!).isEmpty then false
+    else (h.pis[p]!).ops.any fun op => op.cbs.any fun cb =>
+      (s.refs[cb]!).isEmpty && valOf h cb ≥ 0 && (getVal h (valOf h cb)).items.any fun q => cycReach s n (p :: stack) q
+
+/-- the final document is a finite tree (it can be serialised) -/
+def finiteB (s : St) : Bool := !(List.range h.pis.size).any fun p => cycReach h s (h.pis.size + 1) [] p
+
 def specB (s : St) : Bool :=
-  (List.range h.cells.size).all (cellOK h s) && pisOK h s && (namesOK s || !h.validBefore)
+  (List.range h.cells.size).all (cellOK h s) && pisOK h s && mapOK h s && finiteB h s && (namesOK s || !h.validBefore)
 
 -- ---------------------------------------------------------------- exclusion predicates (known-finding classes)
 
@@ -540,7 +559,16 @@ derefParameter: an external one stays external, one inside an imported document 
 def UnwalkedExample (s : St) : Bool :=
   (pexCells h).any fun c => unchangedBad h s c
 
-/-- a reference the loader left without value or without RefPath (no such position is known since cbb0d05) -/
+/-- F-C16-8: a oneOf alternative named by a discriminator mapping was rewritten, the mapping text was not: validation
+with that schema no longer finds the alternative -/
+def DiscriminatorMapping (s : St) : Bool := !mapOK h s
+
+/-- F-C16-9: every `$ref` of a path item is cleared ("inline full operations"), also one that points into the document's
+own paths section and closes a cycle through a callback: the result is an infinite tree, MarshalJSON overflows the stack -/
+def InlinedCycle (s : St) : Bool := !finiteB h s
+
+/-- F-C16-10: a reference the loader left without value or without RefPath although the document loaded (no POSITION is
+left unvisited since cbb0d05; what remains are the loader's text-keyed visited table and foreign-context walks, C02) -/
 def Unresolved : Bool := h.cells.any fun c => !c.ref.isEmpty && (c.val < 0 || c.refPath.isNone)
 
 /-- a reachable path item the descent did not inline -/
